@@ -1125,12 +1125,12 @@ func (i *interpreter) callBuiltin(caller *frame, callpos token.Pos, fn *ssa.Buil
 
 	case "min":
 		if containsSym(tuple(args)) {
-			panic(unsupported{"min on symbolic"})
+			return i.symMinMax(token.LSS, args)
 		}
 		return foldLeft(min, args)
 	case "max":
 		if containsSym(tuple(args)) {
-			panic(unsupported{"max on symbolic"})
+			return i.symMinMax(token.GTR, args)
 		}
 		return foldLeft(max, args)
 
@@ -1670,4 +1670,28 @@ func (i *interpreter) enumStrBinop(op token.Token, x, y value) value {
 		t = Not(t)
 	}
 	return mkBool(t)
+}
+
+// symMinMax: the builtins min/max over integers with symbolic operands, as a chain of
+// if-then-else terms (no fork).
+func (i *interpreter) symMinMax(cmp token.Token, args []value) value {
+	acc := args[0]
+	for _, b := range args[1:] {
+		k, ta, ok1 := intTerm(acc)
+		_, tb, ok2 := intTerm(b)
+		if !ok1 || !ok2 {
+			panic(unsupported{"min/max on symbolic non-integers"})
+		}
+		c, ok := boolTerm(i.binop(cmp, nil, acc, b))
+		if !ok {
+			panic(unsupported{"min/max: comparison did not yield a boolean"})
+		}
+		if ks, isSym := acc.(symv); isSym {
+			k = ks.k
+		} else if ks, isSym := b.(symv); isSym {
+			k = ks.k
+		}
+		acc = mkInt(k, Ite(c, ta, tb))
+	}
+	return acc
 }
